@@ -115,6 +115,19 @@ def weird_requests(rng, w, n):
     return out
 
 
+# the error codes that make sense per kind of request (OCI distribution specification, error codes table): a code that is
+# registered but speaks of something the request is not about is the wrong code
+CODES = dict(
+    mput={"MANIFEST_INVALID", "MANIFEST_BLOB_UNKNOWN", "DIGEST_INVALID", "NAME_INVALID", "NAME_UNKNOWN", "SIZE_INVALID", "DENIED", "UNSUPPORTED", "UNAUTHORIZED", "TOOMANYREQUESTS"},
+    mget={"MANIFEST_UNKNOWN", "MANIFEST_BLOB_UNKNOWN", "NAME_UNKNOWN", "NAME_INVALID", "DIGEST_INVALID", "MANIFEST_INVALID", "DENIED", "UNSUPPORTED", "UNAUTHORIZED", "TOOMANYREQUESTS"},
+    mdel={"MANIFEST_UNKNOWN", "MANIFEST_BLOB_UNKNOWN", "NAME_UNKNOWN", "NAME_INVALID", "DIGEST_INVALID", "MANIFEST_INVALID", "DENIED", "UNSUPPORTED", "UNAUTHORIZED", "TOOMANYREQUESTS"},
+    blobget={"BLOB_UNKNOWN", "NAME_UNKNOWN", "NAME_INVALID", "DIGEST_INVALID", "DENIED", "UNSUPPORTED", "UNAUTHORIZED", "TOOMANYREQUESTS"},
+    blobdel={"BLOB_UNKNOWN", "NAME_UNKNOWN", "NAME_INVALID", "DIGEST_INVALID", "DENIED", "UNSUPPORTED", "UNAUTHORIZED", "TOOMANYREQUESTS"},
+    tags={"NAME_UNKNOWN", "NAME_INVALID", "DENIED", "UNSUPPORTED", "UNAUTHORIZED", "TOOMANYREQUESTS"})
+for _k in ("upost", "upatch", "uput", "uget", "udel"):
+    CODES[_k] = {"BLOB_UPLOAD_INVALID", "BLOB_UPLOAD_UNKNOWN", "DIGEST_INVALID", "SIZE_INVALID", "BLOB_UNKNOWN", "NAME_INVALID", "NAME_UNKNOWN", "DENIED", "UNSUPPORTED", "UNAUTHORIZED", "TOOMANYREQUESTS"}
+
+
 def oracle(ctx, case, io):
     for k, (st, res) in enumerate(zip(case["steps"], io["steps"])):
         if st["kind"] == "refpages" and not res.get("panic"):
@@ -153,6 +166,9 @@ def oracle(ctx, case, io):
             for e in errs:
                 if e["code"] not in REGISTERED:
                     ctx.violation("error code %r is not a registered OCI error code" % e["code"], hist(), "C15:error-code")
+                elif st["kind"] in CODES and e["code"] not in CODES[st["kind"]]:
+                    ctx.violation("error code %s in the answer to a %s request (%s %s): that code speaks of something else" % (e["code"], st["kind"], st["impl"].get("method"), st["impl"].get("path")),
+                                  hist(), "C15:error-code-wrong-kind")
                 if e["message"] in REGISTERED or not e["message"]:
                     ctx.violation("error message %r is not a human message" % e["message"], hist(), "C15:error-message")
         if st["kind"] == "raw":
